@@ -170,9 +170,9 @@ def run(F, R, tier):
     rr = [c for c in exprs(body, "MethodCall") if c["m"] == "random_range"]
     R.floor(rule, "random_range calls", len(rr), 1)
     for c in rr:
-        a = strip(c["args"][0])
+        a = deref(c["args"][0])
         ok = a.get("k") == "Struct" and norm(a["res"].get("path", "")) == "core::ops::range::Range"
-        fl = {f["name"]: strip(f["e"]) for f in a.get("fields", [])} if ok else {}
+        fl = {f["name"]: deref(f["e"]) for f in a.get("fields", [])} if ok else {}
         end = fl.get("end", {})
         ok = ok and lit_value(fl.get("start", {})) == 1 and end.get("k") == "MethodCall" and end["m"] == "len" and local_name(end["recv"]) in pat_names
         R.check(ok, rule, CMP, "anchor drawn from 1..bytes.len() (exclusive upper bound)",
@@ -214,7 +214,7 @@ def run(F, R, tier):
     hc = E.hirs(r"^<searcher::MemmemSearcher as ast::index_expr::Compare<U>>::compare$")
     if len(hc) == 1:
         t = fn_result(hc[0])
-        R.check(t.get("k") == "MethodCall" and t["m"] == "is_some" and strip(t["recv"]).get("m") == "find", rule, norm(hc[0]["path"]),
+        R.check(t.get("k") == "MethodCall" and t["m"] == "is_some" and deref(t["recv"]).get("m") == "find", rule, norm(hc[0]["path"]),
                 "fallback answers find(..).is_some()", where=hc[0]["span"])
     # the searcher comparators are pure delegations: one call on the value's bytes, no shortcut of their own
     deleg = [(r"^<searcher::MemmemSearcher as ast::index_expr::Compare<U>>::compare$", "find"),
@@ -233,7 +233,7 @@ def run(F, R, tier):
         ms = [m for m in exprs(b, "Match") if not norm(m["scrut"].get("ty", "")).endswith("types::LhsValue")]
         calls_ = [c for c in exprs(b, "MethodCall") if c["m"] == meth]
         t = tail(b)
-        direct = (t.get("k") == "MethodCall" and (t["m"] == meth or (t["m"] == "is_some" and strip(t["recv"]).get("m") == meth)))
+        direct = (t.get("k") == "MethodCall" and (t["m"] == meth or (t["m"] == "is_some" and deref(t["recv"]).get("m") == meth)))
         R.check(not rets and not ifs and not ms and len(calls_) == 1 and direct, "R10-deleg", fn,
                 "answers exactly what %s() says (no extra shortcut or early return)" % meth,
                 "%d returns, %d ifs, %d matches, %d %s calls: an added fast path can disagree with the search on boundary lengths" % (
